@@ -107,7 +107,7 @@ Proof.
               (fun _ => None) None (fun _ _ _ => true) true 16 d0 _ [] 0 Hm0 He0 Hl0 (Forall_nil _) Hkm) as (W & Eall & _).
   fold st0 in W, Eall.
   split; [exact W|]. split; [rewrite Eall; intros a b []|]. split; [exact Hkm|].
-  split; [rewrite Eall; intros x []|]. split.
+  exists 0. split; [lia|]. split; [rewrite Eall; intros x []|]. split.
   - intros b [Hb|(jf & Ejf & _)]; [|discriminate]. destruct Hb as [<-|[<-|[]]]; intros _; nlt.
   - intros key Wk.
     destruct (empty_state_answers bytewise bytewise_ok kp kp_ok ox_seek_val mp mp_ok tblp tbl_crc
